@@ -270,6 +270,12 @@ func (f fetcher) FetchSourcePackage(ctx context.Context, sourceType string, u *u
 			return resp, fmt.Errorf("fetcher could not write %s: %w", pa, err)
 		}
 	}
+	// directory modes other than the default are applied last, deepest first
+	for i := limit - 1; i >= 0; i-- {
+		if fl := raw[paths[i]]; fl.Kind == "dir" && fl.Mode != 0 && fl.Mode != 0o755 {
+			os.Chmod(filepath.Join(targetDir, paths[i]), os.FileMode(fl.Mode))
+		}
+	}
 	if c.Fault == "torn" {
 		c.Result = "torn"
 		return resp, errPeer
